@@ -1,6 +1,6 @@
 """Abstract gosk programs: one Python value, two printers (NASK text for gosk, Gallina for the model).
 
-factor : ("num", z) | ("hex", z) | ("id", s) | ("str", bytes)
+factor : ("num", z) | ("numz", z, digits) | ("hex", z) | ("hexz", z, digits, upper) | ("id", s) | ("str", bytes)
 exp    : ("add", mul, [(op, mul)...])          op in "+-"
 mul    : ("mul", prim, [(op, prim)...])        op in "*/%"
 prim   : factor | exp (a parenthesised add)
@@ -69,6 +69,10 @@ def p_factor(f):
     k = f[0]
     if k == "num":
         return "%d" % f[1]
+    if k == "numz":          # the same decimal number written with leading zeros: ("numz", z, digits)
+        return ("-" if f[1] < 0 else "") + "%0*d" % (f[2], abs(f[1]))
+    if k == "hexz":          # hexadecimal with leading zeros / upper-case digits: ("hexz", z, digits, upper)
+        return ("0X" if f[3] else "0x") + ("%0*X" if f[3] else "%0*x") % (f[2], f[1])
     if k == "hex":
         return "0x%x" % f[1]
     if k == "id":
@@ -147,8 +151,10 @@ def p_program(prog, lay=None):
 # ---------------------------------------------------------------- Gallina printer
 def g_factor(f):
     k = f[0]
-    if k == "num":
+    if k in ("num", "numz"):
         return "FNum %s" % gz(f[1])
+    if k == "hexz":
+        return "FHex %s" % gz(f[1])
     if k == "hex":
         return "FHex %s" % gz(f[1])
     if k == "id":
